@@ -981,7 +981,7 @@ func (self *PathNode) SetByStr(key string, val Node, opts *Options) (bool, error
 		// TODO: cap may change after Set. Use better way to store hash size
 		if N > 0 && cap(self.Next) >= N {
 			if s := getStrHash(&self.Next, key, N); s != nil {
-				s.Node = val
+				s.setNode(val)
 				return true, nil
 			}
 		}
@@ -990,7 +990,7 @@ func (self *PathNode) SetByStr(key string, val Node, opts *Options) (bool, error
 	for i := range self.Next {
 		v := &self.Next[i]
 		if v.Path.t == PathStrKey && v.Path.str() == key {
-			v.Node = val
+			v.setNode(val)
 			return true, nil
 		}
 	}
@@ -1051,7 +1051,7 @@ func (self *PathNode) SetByInt(key int, val Node, opts *Options) (bool, error) {
 		N := n * 2
 		if N > 0 && cap(self.Next) >= N {
 			if s := getIntHash(&self.Next, uint64(key), N); s != nil {
-				s.Node = val
+				s.setNode(val)
 				return true, nil
 			}
 		}
@@ -1060,7 +1060,7 @@ func (self *PathNode) SetByInt(key int, val Node, opts *Options) (bool, error) {
 	for i := range self.Next {
 		v := &self.Next[i]
 		if v.Path.t == PathIntKey && v.Path.int() == key {
-			v.Node = val
+			v.setNode(val)
 			return true, nil
 		}
 	}
@@ -1102,6 +1102,13 @@ func (self *PathNode) Field(id thrift.FieldID, opts *Options) *PathNode {
 	return nil
 }
 
+// setNode replaces the value held by a child slot; the children loaded for the old value are not
+// children of the new one (Marshal prefers Next over the node's own bytes)
+func (self *PathNode) setNode(val Node) {
+	self.Node = val
+	self.Next = self.Next[:0]
+}
+
 // SetField set the child node by field id. Only support STRUCT.
 // If the key already exists, it will be overwritten and return true.
 //
@@ -1115,21 +1122,25 @@ func (self *PathNode) SetField(id thrift.FieldID, val Node, opts *Options) (bool
 	if opts.StoreChildrenById && int(id) < StoreChildrenByIdShreshold && int(id) < len(self.Next) {
 		v := &self.Next[id]
 		exist := v.Path.t != 0
-		v.Node = val
+		v.setNode(val)
+		if !exist {
+			// an empty by-id slot becomes the child for this id
+			v.Path = NewPathFieldId(id)
+		}
 		return exist, nil
 	}
 	// slow path: use linear search to find the id.
 	for i := StoreChildrenByIdShreshold; i < len(self.Next); i++ {
 		v := &self.Next[i]
 		if v.Path.t == PathFieldId && v.Path.id() == id {
-			v.Node = val
+			v.setNode(val)
 			return true, nil
 		}
 	}
 	for i := 0; i < len(self.Next) && i < StoreChildrenByIdShreshold; i++ {
 		v := &self.Next[i]
 		if v.Path.t == PathFieldId && v.Path.id() == id {
-			v.Node = val
+			v.setNode(val)
 			return true, nil
 		}
 	}
